@@ -2,6 +2,7 @@ package props
 
 import (
 	"bytes"
+	"context"
 	"fmt"
 	"path/filepath"
 	"sync"
@@ -107,6 +108,116 @@ func c06BigTxEnd(tier string, seed int64, idx int, scratch string) rt.CaseResult
 	c.Evals = ops.Load()
 	if idx == 0 {
 		c.Sample = map[string]any{"scenario": "ends of transactions with thousands of writes vs small transactions of six other clients", "rounds": rounds}
+	}
+	return c
+}
+
+func init() {
+	p := Registry["C06"]
+	p.Roles["ids"] = Role{N: func(t string) int { return tierN(t, 4, 32) }, Case: c06Ids}
+	p.Rule += " Role ids: 8-16 clients each keep 128 transactions open at the same time (begun concurrently) while writers store and read back keys of their own, and the database's identifier generator is drawn from by 16 goroutines 200000-2000000 times: no Begin may fail (an identifier handed out twice shows as ErrTxAlreadyExists), no key may read another key's content, no identifier may repeat."
+}
+
+// c06Ids: identifiers stay unique under concurrency.
+func c06Ids(tier string, seed int64, idx int, scratch string) rt.CaseResult {
+	var c rt.CaseResult
+	rt.SetWatchdogLimit(60 * time.Second)
+	env, err := dbx.Open(dbx.Options{Mode: dbx.Inline, Dir: filepath.Join(scratch, "db")})
+	if err != nil {
+		c.Violate("open-failed", err.Error(), nil)
+		return c
+	}
+	defer env.Close()
+	var mu sync.Mutex
+	viol := func(sig, what string) {
+		mu.Lock()
+		defer mu.Unlock()
+		if len(c.Violations) < 3 {
+			c.Violate(sig, what, map[string]any{"seed": seed, "case": idx})
+		}
+	}
+	// the generator itself, drawn from by many goroutines at once
+	gen := env.C.Gen()
+	const drawers = 16
+	per := tierN(tier, 12500, 125000)
+	ids := make([][]string, drawers)
+	var wg sync.WaitGroup
+	var goFlag atomic.Bool
+	for g := 0; g < drawers; g++ {
+		wg.Add(1)
+		go func(g int) {
+			defer wg.Done()
+			out := make([]string, 0, per)
+			for !goFlag.Load() {
+			}
+			for i := 0; i < per; i++ {
+				out = append(out, gen.Generate())
+			}
+			ids[g] = out
+		}(g)
+	}
+	// meanwhile: clients that keep many transactions open, writers that read back their own keys
+	clients := 8 + idx%2*8
+	for cl := 0; cl < clients; cl++ {
+		wg.Add(1)
+		go func(cl int) {
+			defer wg.Done()
+			for !goFlag.Load() {
+			}
+			for round := 0; round < 3; round++ {
+				var open []interface{ Rollback(context.Context) error }
+				for i := 0; i < 128; i++ {
+					tx, err := env.DB.Begin(ctxBg, verif.IsoLevel(i%4))
+					if err != nil {
+						viol("begin-failed class="+string(seqrun.Class(err))+" many-open-concurrent", fmt.Sprintf("client %d: Begin number %d of its round failed while %d clients were beginning transactions at the same time: %v", cl, i, clients, err))
+						break
+					}
+					open = append(open, tx)
+				}
+				for _, tx := range open {
+					tx.Rollback(ctxBg)
+				}
+			}
+		}(cl)
+	}
+	for w := 0; w < 4; w++ {
+		wg.Add(1)
+		go func(w int) {
+			defer wg.Done()
+			for !goFlag.Load() {
+			}
+			for i := 0; i < 300; i++ {
+				k := fmt.Sprintf("idw%d-%d", w, i)
+				v := seqrun.Content(fmt.Sprintf("ids%d-%s", idx, k), 12)
+				if err := env.DB.Set(ctxBg, k, v); err != nil {
+					viol("unexpected-error op=set class="+string(seqrun.Class(err)), err.Error())
+					return
+				}
+				j := i / 2
+				ok := fmt.Sprintf("idw%d-%d", w, j)
+				if b, gerr := env.DB.Get(ctxBg, ok); gerr != nil || !bytes.Equal(b, seqrun.Content(fmt.Sprintf("ids%d-%s", idx, ok), 12)) {
+					viol("read-foreign-or-partial-value role=ids", fmt.Sprintf("writer %d: its key %q, written once and never again, reads %s (%v)", w, ok, seqrun.Describe(b), gerr))
+					return
+				}
+			}
+		}(w)
+	}
+	goFlag.Store(true)
+	wg.Wait()
+	seen := make(map[string]struct{}, drawers*per)
+	for g := range ids {
+		for _, id := range ids[g] {
+			if _, dup := seen[id]; dup {
+				viol("identifier-issued-twice", fmt.Sprintf("the identifier generator returned %q twice among %d identifiers drawn by %d goroutines", id, drawers*per, drawers))
+				break
+			}
+			seen[id] = struct{}{}
+		}
+	}
+	c.Evals = int64(len(seen))
+	c.AddDistinct(fmt.Sprintf("ids/clients=%d", clients))
+	if idx == 0 {
+		c.Sample = map[string]any{"identifiers_drawn": len(seen), "clients_with_128_open_transactions": clients}
 	}
 	return c
 }
